@@ -28,9 +28,10 @@ def check(run):
     run.rule('ACC.nocapture', acc.RULES['ACC.nocapture'])
     for cfg in configs(run):
         F = run.facts(cfg)
+        if cfg == 'base': __import__('common').pins(run, F, 'number_prims')
         # helpers this property stands on (rule sets owned by other properties, see common.deps)
         from common import deps as _deps
-        _deps(run, F, 'drivers', 'accessors')
+        _deps(run, F, 'drivers', 'accessors', 'wrappers', 'fast_paths')
         A.check_folds(run, F)
         nu = N.check_unwrap(run, F, FILES, AUDITED_UNWRAP)
         run.floor('NULL.unwrap', 'IsNone::unwrap sites in null-aware code', nu, 100)
